@@ -293,8 +293,11 @@ impl Scenario for Store {
 async fn read_obj(sut: &Sut, o: &Obj) -> Result<Vec<u8>, String> {
     match sut {
         Sut::Container(c) => {
-            let mut buf = vec![0u8; o.data.len() + 4096];
-            let n = c.read(&o.ekey, 0, 0, &mut buf).await.map_err(|e| format!("{e}"))?;
+            // the whole object is asked for (offset 0, its length) into a buffer that is exactly as long as the
+            // object for every third object, generous otherwise
+            let exact = o.data.len() % 3 == 0;
+            let mut buf = vec![0u8; if exact { o.data.len() } else { o.data.len() + 4096 }];
+            let n = c.read(&o.ekey, 0, o.data.len() as u32, &mut buf).await.map_err(|e| format!("{e}"))?;
             buf.truncate(n);
             Ok(buf)
         }
@@ -432,6 +435,26 @@ async fn run(case: &Case, ctx: &mut Ctx) -> Option<Violation> {
                 ctx.event(|| json!({"k":"op","op":"write","class":CLASSES[(*class % 9) as usize],"len":data.len(),"compress":compress,"ret":res.as_ref().map(|(ek, loc)| json!({"ekey":hex::encode(ek),"loc":[loc.0,loc.1,loc.2]})).map_err(|e| e.clone())}));
                 match res {
                     Ok((ek, loc)) => {
+                        // Installation: the object's encoding key is whatever the store indexed it under. The key
+                        // computed here (MD5 of an uncompressed single-chunk BLTE) must be in the index; if the store
+                        // encodes differently (say, it starts to compress) the one key that newly appeared is adopted
+                        let mut ek = ek;
+                        if let Sut::Install(inst) = &sut {
+                            let now: std::collections::BTreeSet<[u8; 9]> = inst.get_all_index_entries().await.iter().map(|e| e.key).collect();
+                            let mut p9 = [0u8; 9];
+                            p9.copy_from_slice(&ek[..9]);
+                            if !now.contains(&p9) {
+                                let known: std::collections::BTreeSet<[u8; 9]> = objs.iter().map(|o| { let mut k = [0u8; 9]; k.copy_from_slice(&o.ekey[..9]); k }).collect();
+                                let fresh: Vec<&[u8; 9]> = now.iter().filter(|k| !known.contains(*k)).collect();
+                                if fresh.len() == 1 {
+                                    ek = [0u8; 16];
+                                    ek[..9].copy_from_slice(fresh[0]);
+                                    ctx.count("ekey_learned_from_the_index");
+                                } else {
+                                    return Some(viol("C04.index.lists_written", "written_object_not_indexed", None, reopened, "", format!("op #{i}: write_file returned Ok but the index lists neither the expected encoding key {} nor exactly one new key ({} new)", hex::encode(p9), fresh.len())));
+                                }
+                            }
+                        }
                         if let (Some(exp), Sut::Archive(_)) = (expect_ekey, &sut) {
                             if exp != ek {
                                 panic!("harness: encoding key mismatch: store says {}, MD5(BLTE) is {}", hex::encode(ek), hex::encode(exp));
@@ -495,7 +518,10 @@ async fn run(case: &Case, ctx: &mut Ctx) -> Option<Violation> {
                     let ek = objs[j].ekey;
                     let r = c.remove(&ek).await;
                     ctx.event(|| json!({"k":"op","op":"remove","obj":j,"ok":r.is_ok()}));
-                    if let Err(e) = r {
+                    if let (Err(_), false) = (&r, objs[j].live) {
+                        // removing what is already gone may be reported as an error
+                        ctx.count("remove_of_removed_object_refused");
+                    } else if let Err(e) = r {
                         return Some(viol("C04.remove.ok", "remove_failed", Some(&objs[j]), reopened, "", format!("op #{i} remove of object #{j} failed: {e}")));
                     }
                     for o in objs.iter_mut() {
